@@ -179,6 +179,16 @@ def shards(tier, seed):
                             budget=110, per_path=30))
         else:
             out.append(dict(name=f"sk{i}-{mk}-len{max_len}", fn="h_validate", kwargs=dict(sk=sk, metric=mk, max_len=max_len), budget=1500, per_path=30))
+    # the empty plan takes its own code path (evaluate_quality_metric_in_initial_state): every metric kind on it, on the two skeletons
+    # whose goal can hold initially
+    for i in (0, 2):
+        for mk in METRICS:
+            if tier == "quick" and (i, mk) in combos:
+                continue  # its len01 shard has the empty plan already
+            sk = SKS[i]
+            if mk in ("cost-fluent",) and sk.get("n_bounds", "none") == "none":
+                sk = dict(sk, n_bounds="both")
+            out.append(dict(name=f"sk{i}-{mk}-len0", fn="h_validate", kwargs=dict(sk=sk, metric=mk, max_len=0, lens=[0]), budget=60, per_path=30))
     return out
 
 
